@@ -166,6 +166,7 @@ pub fn c20_part(thorough: bool) -> (mc::Stats, Vec<mc::Violation>) {
         for mut v in vio {
             if v.key.starts_with("C20:") || v.key.starts_with("panic:") {
                 v.replay["workload"] = json!(name);
+                v.replay["engine"] = json!("hsim");
                 v.replay["driver"] = json!("hdrive");
                 found.push(v);
             }
@@ -227,6 +228,7 @@ pub fn run(prop: &str) {
         for mut v in vio {
             if v.key.starts_with(&format!("{prop}:")) || v.key.starts_with("panic:") {
                 v.replay["workload"] = json!(name);
+                v.replay["engine"] = json!("hsim");
                 v.replay["driver"] = json!("hdrive");
                 found.push(v);
             }
